@@ -137,6 +137,7 @@ class C06(Prop):
         for i in range(n):
             g = Gen6(random.Random(rng.getrandbits(48)), full=True, depth=rng.choice([1, 2, 2, 3]),
                      carried=rng.choice([0.0, 0.0, 0.5]))
+            g.const_bounds = rng.choice([0.3, 0.3, 0.75])  # constant bounds: trip counts 0, 1, 2 with ranges that are no multiple of the step
             if i % 4 == 1:
                 g.nested = 0.7  # nests of rotation candidates: inner head setups read values of the enclosing loop bodies
                 g.accs = g.accs[:1] if rng.random() < 0.7 else g.accs
